@@ -397,3 +397,59 @@ def r8_no_silent_skip(ctx):
 
 
 RULES += [r8_no_silent_skip]
+
+
+def r4b_offset_map_copies(ctx, rid="C14.r4b", backward_only=False):
+    ctx.rule(rid, "array_adaptive: an offset map obtained from an array state is modified through a REFERENCE into that state (or a "
+             "by-value copy is stored back): cells added to a detached copy are lost while their ghost variables stay constrained", floor=3)
+    n = 0
+    for fn in ctx.db.fns(AA, cpk=AAC):
+        if backward_only and not fn["name"].startswith("backward_"):
+            continue
+        body = fn["body"]
+        d = local_decls(body)
+        for dd in d.values():
+            t = (dd.get("T") or "")
+            tc = (dd.get("TC") or t)
+            if "offset_map" not in tc or "i" not in dd:
+                continue
+            if not any(is_call(x, name="get_offset_map") for x in walk(dd["i"])):
+                continue
+            n += 1
+            byval = not t.rstrip().endswith("&")
+            if not byval:
+                ctx.ok("%s: `%s` is a reference into the array state" % (fn["name"], dd["n"]), fn, dd)
+                continue
+            vid = dd["id"]
+            # mutated: passed by non-const reference or receiver of a non-const call
+            mut = None
+            for x in walk(body):
+                if x.get("k") != "call" or not callee(x):
+                    continue
+                o = strip(x.get("o")) if "o" in x else None
+                if isinstance(o, dict) and o.get("k") == "ref" and o.get("id") == vid and not callee(x).get("const"):
+                    mut = x
+                ps = (callee(x).get("psig") or "").split(",")
+                for i, a in enumerate(x.get("a", [])):
+                    sa = strip(a)
+                    if isinstance(sa, dict) and sa.get("k") == "ref" and sa.get("id") == vid and i < len(ps) and \
+                            ps[i].strip().endswith("&") and not ps[i].strip().startswith("const"):
+                        mut = x
+            if mut is None:
+                ctx.ok("%s: by-value copy `%s` is only read" % (fn["name"], dd["n"]), fn, dd)
+                continue
+            stored = any((x.get("k") in ("ctor",) and any(strip_move(a).get("id") == vid for a in x.get("a", []) if isinstance(strip_move(a), dict))) or
+                         (is_call(x, name=("set_offset_map",)) and any(isinstance(strip_move(a), dict) and strip_move(a).get("id") == vid for a in x.get("a", [])))
+                         for x in walk(body))
+            if stored:
+                ctx.ok("%s: by-value copy `%s` modified and stored back" % (fn["name"], dd["n"]), fn, dd)
+            else:
+                ctx.bad("array_adaptive_domain::%s takes the offset map BY VALUE (`%s %s = ...get_offset_map()`), modifies the copy with `%s` "
+                        "and never stores it back: the cell is missing from the array state that is written to the array map while its "
+                        "ghost variable is constrained, so later overlapping stores / havocs do not kill it" %
+                        (fn["name"], t[:30], dd["n"], src(mut)[:50]), fn, mut, sig="offset-map-copy:%s:%s" % (fn["name"], dd["n"]), rid=rid)
+    if n == 0:
+        ctx.fail("rule %s: no local bound to get_offset_map() found" % rid)
+
+
+RULES += [r4b_offset_map_copies]
